@@ -106,9 +106,25 @@ def on_resolve(fields):
     TRACES["resolver"].append({"test": os.environ.get("PYTEST_CURRENT_TEST", "?").split(" ")[0], "events": ev})
 
 
+_counter = [0]
+
+
+def sandbox_key(sb):
+    """id() values are reused after garbage collection: tag each sandbox object once."""
+    k = getattr(sb, "_verif_key", None)
+    if k is None:
+        _counter[0] += 1
+        k = _counter[0]
+        try:
+            sb._verif_key = k
+        except Exception:
+            pass
+    return k
+
+
 def on_execute(fields):
     sb, ctx_ = fields["sandbox"], fields["context"]
-    key = id(sb)
+    key = sandbox_key(sb)
     st = _ledger.setdefault(key, {"events": [], "raw": None})
     share = ctx_.output if isinstance(ctx_.output, str) else ""
     if len(sb.raw_output) > 1500 or len(st["events"]) > 30:
@@ -127,7 +143,7 @@ def sink(event, fields):
         elif event == "execute":
             on_execute(fields)
         elif event == "clear_output":
-            st = _ledger.setdefault(id(fields["sandbox"]), {"events": [], "raw": None})
+            st = _ledger.setdefault(sandbox_key(fields["sandbox"]), {"events": [], "raw": None})
             st["events"].append({"e": "clear"})
     except Exception as e:      # the recorder must never disturb the test-suite
         TRACES.setdefault("errors", []).append("%s: %s" % (type(e).__name__, e))
